@@ -775,11 +775,19 @@ def transform_C16(doc):
         labels = [nd[0] for nd in doc["world"]["nodes"]]
         if isinstance(labels[0], int):
             new = r.sample(range(1, 10 ** 6), len(labels))
+            if t["salt"] % 4 == 1:
+                # zero, negative and very large integers are names like any other
+                new = r.sample(list(range(-len(labels), len(labels) + 1)) + [2 ** 31, -2 ** 31, 2 ** 62, -2 ** 62 + 1], len(labels))
         else:
             new = ["q%d" % v for v in r.sample(range(1000), len(labels))]
             if t["salt"] % 4 == 0:
                 new = gen.hyphen_labels(len(labels))
                 r.shuffle(new)
+            elif t["salt"] % 4 == 1:
+                # strings that look like numbers, contain the characters the library joins names with, or differ
+                # only in case or surrounding blanks
+                new = r.sample(["0", "1", "-1", "01", "1.0", "a_b", "a b", "_", "-", "None", "1_2", "b_a", "A", "a", " a",
+                                "a ", "O0", "0_0", "0-0", "é"], len(labels))
         mp = dict(zip(labels, new))
         w = d2["world"]
         w["nodes"] = [[mp[l], p, [mp[x] for x in nb]] for l, p, nb in w["nodes"]]
@@ -833,7 +841,49 @@ def threshold_fragile(cfg, sess, rel=1e-9):
     return False
 
 
+def edge_id_collision(doc):
+    """Listed finding D21: SqliteMap stores a road under the identifier hash((a, b)).  Returns two different roads
+    of the document's map with the same identifier (in CPython hash(-1) == hash(-2), and integers are hashed
+    modulo 2**61 - 1), or None.  Only meaningful for the SQLite backends."""
+    if not str(doc.get("backend", "")).startswith("sqlite"):
+        return None
+    seen = {}
+    for l, _, nb in doc["world"]["nodes"]:
+        for b in nb:
+            e = (l, b)
+            h = e.__hash__()
+            if h in seen and seen[h] != e:
+                return (seen[h], e)
+            seen[h] = e
+    return None
+
+
 def eval_C16(doc):
+    coll = edge_id_collision(doc)
+    if coll is None and doc["transform"]["kind"] == "relabel":
+        coll = edge_id_collision(transform_C16(doc)[0])
+    if coll is None:
+        return _eval_C16(doc)
+    # whatever goes wrong on a stored map two of whose roads share an identifier is that finding
+    cls = "C16/relabel/sqlite-edge-id-collision"
+    try:
+        res = _eval_C16(doc)
+    except Exception as exc:
+        import traceback
+        if not any("leuvenmapmatching" in fr.filename and "/verif/" not in fr.filename
+                   for fr in traceback.extract_tb(exc.__traceback__)):
+            raise
+        return {"violations": [{"cls": cls, "detail": "roads %r and %r share an identifier: %s: %s" % (
+            coll[0], coll[1], type(exc).__name__, str(exc)[:120]), "op": -1, "opkind": "?"}],
+            "sig": "raised|edge-id-collision", "nontrivial": True, "stats": {"ops": len(doc.get("ops", [])), "probe_edge_id_collision": 1}}
+    for v in res["violations"]:
+        v["detail"] = "roads %r and %r share an identifier; %s: %s" % (coll[0], coll[1], v["cls"], v["detail"][:200])
+        v["cls"] = cls
+    res["stats"]["probe_edge_id_collision"] = 1
+    return res
+
+
+def _eval_C16(doc):
     vs = []
     stats = {}
     d1 = clone(doc)
